@@ -24,14 +24,17 @@ pub enum Ending {
     FinalizeDrop,
     /// consumed by write_shapes(self, [c; k])
     WriteShapes(u8),
+    /// the writer is dropped by stack unwinding (the caller panics with the writer alive)
+    DropWhilePanicking,
 }
 
-pub const ENDINGS: [Ending; 5] = [
+pub const ENDINGS: [Ending; 6] = [
     Ending::Drop,
     Ending::FinalizeDrop,
     Ending::WriteShapes(0),
     Ending::WriteShapes(1),
     Ending::WriteShapes(2),
+    Ending::DropWhilePanicking,
 ];
 
 impl Ending {
@@ -40,6 +43,7 @@ impl Ending {
             Ending::Drop => "drop".into(),
             Ending::FinalizeDrop => "finalize+drop".into(),
             Ending::WriteShapes(k) => format!("write_shapes(c x{})", k),
+            Ending::DropWhilePanicking => "drop-while-panicking".into(),
         }
     }
     pub fn from_name(s: &str) -> Option<Ending> {
@@ -163,6 +167,21 @@ pub fn exec_writer(
     env.set_call(ops.len() as u32);
     let end = match ending {
         Ending::Drop => CallRes::Ok,
+        Ending::DropWhilePanicking => {
+            let wr = w.take().unwrap();
+            // the caller's code panics while the writer is alive: it is dropped by unwinding
+            let r = catch(move || {
+                let _keep = wr;
+                if true {
+                    panic!("vcheck: caller panics with the writer alive");
+                }
+            });
+            match r {
+                Err(p) if p.msg.starts_with("vcheck: caller panics") => CallRes::Ok,
+                Err(p) => CallRes::Panic(format!("drop:{}", p.sig())),
+                Ok(()) => CallRes::Ok,
+            }
+        }
         Ending::FinalizeDrop => {
             let wr = w.as_mut().unwrap();
             to_res(catch(|| wr.finalize()))
